@@ -689,4 +689,359 @@ theorem updateFromLeafMutation_spec (g : Nat → D) (n i j : Nat) (d : D) (hi : 
 
 end T1
 
+section Batch
+variable {D : Type} [DecidableEq D] (H : D → D → D)
+
+omit [DecidableEq D] in
+/-- the map after walking `s` levels up from leaf `j` on top of a map `m`: the ancestors `(k, j / 2^k)`, `k ≤ s`, with
+    their digests, over the old entries -/
+theorem walk_get? (f : Nat → D) (j s : Nat) (m : AMap D) (hlt : nodeIdx s (j / 2 ^ s) < 2 ^ 64) (l b : Nat) :
+    AMap.get? (walkIns H f s 0 j (AMap.insert m (nodeIdx 0 j) (f j))) (nodeIdx l b)
+      = if l ≤ s ∧ b = j / 2 ^ l then some (sub H f l b) else AMap.get? m (nodeIdx l b) := by
+  have hbound : ∀ k ≤ s, nodeIdx k (j / 2 ^ k) < 2 ^ 64 := by
+    intro k hk
+    obtain ⟨d, rfl⟩ : ∃ d, s = k + d := ⟨s - k, by omega⟩
+    have := nodeIdx_le_ancestor k (j / 2 ^ k) d
+    rw [← div_pow_add] at this
+    omega
+  by_cases hc : l ≤ s ∧ b = j / 2 ^ l
+  · obtain ⟨hl, rfl⟩ := hc
+    rw [if_pos ⟨hl, rfl⟩]
+    cases l with
+    | zero =>
+      rw [walkIns_get?_other]
+      · simp [get?_insert, sub]
+      · intro k _
+        have := nodeIdx_lt_ancestor 0 j (k + 1) (by omega)
+        simp only [Nat.pow_zero, Nat.div_one, Nat.zero_add] at this ⊢
+        omega
+    | succ l =>
+      have := walkIns_get?_anc H f s 0 j (AMap.insert m (nodeIdx 0 j) (f j)) l (by omega)
+      simpa using this
+  · rw [if_neg hc, walkIns_get?_other, get?_insert, if_neg]
+    · intro he
+      have := nodeIdx_inj _ _ _ _ (by simpa using hbound 0 (by omega)) he
+      exact hc ⟨by omega, by rw [← this.2, ← this.1]; simp⟩
+    · intro k hk he
+      have := nodeIdx_inj _ _ _ _ (hbound (k + 1) (by omega)) (by simpa using he.symm)
+      exact hc ⟨by omega, by rw [← this.2, this.1]⟩
+
+/-- invariant of the map of recomputed digests: `g` the leaves the handed paths belong to, `g'` the leaves after the
+    mutations processed so far (`S` their indices).  Nodes below a peak: what is stored is the digest in `g'`; what is
+    not stored did not change.  Stored leaf nodes are mutated leafs. -/
+def MapInv (n : Nat) (g g' : Nat → D) (S : List Nat) (m : AMap D) : Prop :=
+  (∀ l b v, (b / 2 + 1) * 2 ^ (l + 1) ≤ n → AMap.get? m (nodeIdx l b) = some v → v = sub H g' l b) ∧
+  (∀ l b, (b / 2 + 1) * 2 ^ (l + 1) ≤ n → AMap.get? m (nodeIdx l b) = none → sub H g' l b = sub H g l b) ∧
+  (∀ A, (AMap.get? m (nodeIdx 0 A)).isSome → A ∈ S)
+
+omit [DecidableEq D] in
+theorem MapInv_nil (n : Nat) (g : Nat → D) : MapInv H n g g [] [] :=
+  ⟨fun _ _ _ _ h => by simp [get?_nil] at h, fun _ _ _ _ => rfl, fun _ h => by simp [get?_nil] at h⟩
+
+omit [DecidableEq D] in
+/-- a node on the path of `B` that is below a peak is below the height of `B`'s tree -/
+theorem nonpeak_on_path (n B l : Nat) (h : (B / 2 ^ l / 2 + 1) * 2 ^ (l + 1) ≤ n) : l < (locate n B).1 := by
+  rw [← div_pow_succ] at h
+  have := locate_height_ge' (l + 1) n B h
+  omega
+
+omit [DecidableEq D] in
+/-- **one mutation processed by a batch routine**: the walk up the path of leaf `B` (last digest left out; siblings from
+    the map when `useMap`) succeeds and re-establishes the invariant for the leaves with `B` replaced -/
+theorem mutation_step (n : Nat) (g g' : Nat → D) (S : List Nat) (m : AMap D) (useMap il : Bool) (B : Nat) (dB : D)
+    (hB : B < n) (hn : n < 2 ^ 63) (hinv : MapInv H n g g' S m) (hm : useMap = false → m = []) :
+    ∃ m' acc, deducible H none true useMap il (authPathOf H g n B) (nodeIdx 0 B) dB (AMap.insert m (nodeIdx 0 B) dB)
+        = some (m', acc) ∧ MapInv H n g (Function.update g' B dB) (B :: S) m' := by
+  obtain ⟨hgood, hunt, hkeys⟩ := hinv
+  have hh := height_le_62 n B hB hn
+  have hlt : nodeIdx ((locate n B).1 - 1) (B / 2 ^ ((locate n B).1 - 1)) < 2 ^ 64 :=
+    anc_idx_lt n B _ hB hn (by omega)
+  have hlt0 : nodeIdx 0 B < 2 ^ 64 := by simpa using anc_idx_lt n B 0 hB hn (by omega)
+  have hdd : Function.update g' B dB B = dB := by simp
+  -- the walk
+  have hw := deducible_walk H (Function.update g' B dB) useMap (sibPath H g 0 ((locate n B).1 - 1) B) 0 B
+    (AMap.insert m (nodeIdx 0 B) dB) (by rw [sibPath_length]; omega) (by rw [sibPath_length, Nat.zero_add]; exact hlt) (by
+      intro k hk
+      rw [sibPath_length] at hk
+      have hnp : (sibBlk (B / 2 ^ k) / 2 + 1) * 2 ^ (0 + k + 1) ≤ n := by
+        rw [sibBlk_half, ← div_pow_succ, Nat.zero_add]
+        exact anc_block_le n B (k + 1) hB (by omega)
+      have hne := sibBlk_ne (B / 2 ^ k)
+      have hs2 : sub H (Function.update g' B dB) (0 + k) (sibBlk (B / 2 ^ k)) = sub H g' (0 + k) (sibBlk (B / 2 ^ k)) :=
+        sub_update_ne H g' B dB _ _ (by simpa using hne)
+      rw [sibPath_getElem, hs2]
+      cases useMap with
+      | false =>
+        have := hm rfl
+        subst this
+        simp only [Bool.false_eq_true, if_false]
+        exact (hunt _ _ hnp (get?_nil _)).symm
+      | true =>
+        simp only [if_true]
+        have hkey : ¬ nodeIdx 0 B = nodeIdx (0 + k) (sibBlk (B / 2 ^ k)) := by
+          intro he
+          have := nodeIdx_inj _ _ _ _ hlt0 he
+          have hk0 : k = 0 := by omega
+          subst hk0
+          simp only [Nat.pow_zero, Nat.div_one] at this hne
+          exact hne this.2.symm
+        rw [get?_insert, if_neg hkey]
+        cases hg : AMap.get? m (nodeIdx (0 + k) (sibBlk (B / 2 ^ k))) with
+        | none => simp only [Option.getD_none]; exact (hunt _ _ hnp hg).symm
+        | some v => simp only [Option.getD_some]; exact hgood _ _ v hnp hg)
+  rw [show sub H (Function.update g' B dB) 0 B = dB by simp [sub]] at hw
+  have hpath : (authPathOf H g n B).dropLast = sibPath H g 0 ((locate n B).1 - 1) B := by
+    unfold authPathOf; rw [sibPath_dropLast]
+  refine ⟨_, _, by rw [deducible_skipLast, hpath, hw], ?_⟩
+  rw [sibPath_length]
+  have hget := fun l b => walk_get? H (Function.update g' B dB) B ((locate n B).1 - 1) m hlt l b
+  simp only [hdd] at hget
+  refine ⟨?_, ?_, ?_⟩
+  · intro l b v hnp hv
+    rw [hget] at hv
+    split at hv
+    · exact (Option.some.inj hv).symm
+    · rename_i hc
+      have hb : b ≠ B / 2 ^ l := by
+        intro hb; subst hb
+        have := nonpeak_on_path n B l hnp
+        exact hc ⟨by omega, rfl⟩
+      rw [sub_update_ne H g' B dB l b hb]
+      exact hgood l b v hnp hv
+  · intro l b hnp hv
+    rw [hget] at hv
+    split at hv
+    · cases hv
+    · rename_i hc
+      have hb : b ≠ B / 2 ^ l := by
+        intro hb; subst hb
+        have := nonpeak_on_path n B l hnp
+        exact hc ⟨by omega, rfl⟩
+      rw [sub_update_ne H g' B dB l b hb]
+      exact hunt l b hnp hv
+  · intro A hA
+    rw [hget] at hA
+    split at hA
+    · rename_i hc
+      have : A = B := by simpa using hc.2
+      subst this; simp
+    · exact List.mem_cons_of_mem _ (hkeys A hA)
+
+end Batch
+
+section Batch2
+variable {D : Type} [DecidableEq D] (H : D → D → D)
+
+/-- **one proof through the replacement loop of a batch routine**: with a map satisfying the invariant, the
+    from-scratch path of leaf `li` becomes the from-scratch path in the new leaves; the flag says whether it changed
+    (`stopAfterFirst`: provided at most one digest of the path changes) -/
+theorem replace_path_spec (n : Nat) (g g' : Nat → D) (S : List Nat) (m : AMap D) (saf : Bool) (li : Nat)
+    (hli : li < n) (hinv : MapInv H n g g' S m)
+    (hone : saf = true → ∀ t t', sub H g t (sibBlk (li / 2 ^ t)) ≠ sub H g' t (sibBlk (li / 2 ^ t)) →
+      sub H g t' (sibBlk (li / 2 ^ t')) ≠ sub H g' t' (sibBlk (li / 2 ^ t')) → t = t') :
+    ∃ b, replaceFromMap m true saf (authPathOf H g n li)
+          ((List.range (locate n li).1).map (fun t => nodeIdx t (sibBlk (li / 2 ^ t))))
+        = (authPathOf H g' n li, b) ∧ (b = true ↔ authPathOf H g' n li ≠ authPathOf H g n li) := by
+  obtain ⟨hgood, hunt, _⟩ := hinv
+  rw [authPathOf_eq_map, authPathOf_eq_map]
+  apply replaceFromMap_spec m (fun t => sub H g t (sibBlk (li / 2 ^ t))) (fun t => sub H g' t (sibBlk (li / 2 ^ t)))
+    (fun t => nodeIdx t (sibBlk (li / 2 ^ t))) saf
+  · intro t ht
+    have ht' := List.mem_range.mp ht
+    have hnp : (sibBlk (li / 2 ^ t) / 2 + 1) * 2 ^ (t + 1) ≤ n := by
+      rw [sibBlk_half, ← div_pow_succ]
+      exact anc_block_le n li (t + 1) hli (by omega)
+    exact ⟨fun v hv => hgood _ _ v hnp hv, fun hv => (hunt _ _ hnp hv).symm⟩
+  · intro hs
+    refine List.Pairwise.imp ?_ (List.nodup_range (n := (locate n li).1))
+    intro t t' hne
+    by_contra hc
+    simp only [not_or] at hc
+    exact hne (hone hs t t' hc.1 hc.2)
+
+/-- positions (counted from `s`) of the proofs that changed -/
+def chgIdx (P Q : Nat → List D) : Nat → List Nat → List Nat
+  | _, [] => []
+  | s, li :: lis => if Q li ≠ P li then s :: chgIdx P Q (s + 1) lis else chgIdx P Q (s + 1) lis
+
+theorem chgIdx_eq (P Q : Nat → List D) : ∀ (lis : List Nat) (s : Nat),
+    chgIdx P Q s lis
+      = ((List.range lis.length).filter (fun k => decide (Q (lis.getD k 0) ≠ P (lis.getD k 0)))).map (· + s) := by
+  intro lis
+  induction lis with
+  | nil => intro s; simp [chgIdx]
+  | cons li lis ih =>
+    intro s
+    rw [chgIdx, ih (s + 1), List.length_cons, List.range_succ_eq_map, List.filter_cons, List.filter_map]
+    have hf : ((fun k => decide (Q ((li :: lis).getD k 0) ≠ P ((li :: lis).getD k 0))) ∘ Nat.succ)
+        = fun k => decide (Q (lis.getD k 0) ≠ P (lis.getD k 0)) := by
+      funext k; simp
+    have hm : ((fun x => x + s) ∘ Nat.succ) = fun x => x + (s + 1) := by funext k; simp; omega
+    rw [hf]
+    have h0 : (li :: lis).getD 0 0 = li := rfl
+    rw [h0]
+    by_cases hc : Q li ≠ P li
+    · rw [if_pos hc, if_pos (by simpa using hc), List.map_cons, List.map_map, hm, Nat.zero_add]
+    · rw [if_neg hc, if_neg (by simpa using hc), List.map_map, hm]
+
+/-- the per-proof loop of the batch mutation routines -/
+theorem batchReplaceLoop_spec (m : AMap D) (saf : Bool) (P Q : Nat → List D) (K : Nat → List Nat) :
+    ∀ (lis : List Nat) (s : Nat),
+    (∀ li ∈ lis, get_node_indices li (P li).length = some (K li) ∧
+      ∃ b, replaceFromMap m true saf (P li) (K li) = (Q li, b) ∧ (b = true ↔ Q li ≠ P li)) →
+    batchReplaceLoop m saf (lis.map P) lis s = some (lis.map Q, chgIdx P Q s lis) := by
+  intro lis
+  induction lis with
+  | nil => intro s _; simp [batchReplaceLoop, chgIdx]
+  | cons li lis ih =>
+    intro s h
+    obtain ⟨h1, b, h2, h3⟩ := h li (by simp)
+    have := ih (s + 1) (fun x hx => h x (by simp [hx]))
+    simp only [List.map_cons, batchReplaceLoop, h1, h2, this, Option.bind_eq_bind, Option.bind_some, Option.pure_def,
+      chgIdx]
+    by_cases hc : Q li ≠ P li
+    · have : b = true := h3.mpr hc
+      subst this; simp [hc]
+    · have : b = false := by
+        cases b with
+        | false => rfl
+        | true => exact absurd (h3.mp rfl) hc
+      subst this; simp [hc]
+
+end Batch2
+
+section Batch3
+variable {D : Type} [DecidableEq D] (H : D → D → D)
+
+omit [DecidableEq D] in
+theorem slot_changed_meet (g : Nat → D) (i j t : Nat) (d : D)
+    (h : sub H g t (sibBlk (i / 2 ^ t)) ≠ sub H (Function.update g j d) t (sibBlk (i / 2 ^ t))) :
+    sibBlk (i / 2 ^ t) = j / 2 ^ t := by
+  by_contra hc
+  exact h (slot_unchanged H g i j t d hc).symm
+
+/-- **`batch_update_from_leaf_mutation`** on from-scratch paths: every path becomes the from-scratch path of the
+    changed leaf list, and exactly the positions of the changed paths are reported -/
+theorem batchUpdateFromLeafMutation_spec (g : Nat → D) (n j : Nat) (d : D) (lis : List Nat)
+    (hlis : ∀ i ∈ lis, i < n) (hj : j < n) (hn : n < 2 ^ 63) :
+    batchUpdateFromLeafMutation H (lis.map (authPathOf H g n)) lis ⟨j, d, authPathOf H g n j⟩
+      = some (lis.map (authPathOf H (Function.update g j d) n),
+          (List.range lis.length).filter (fun k => decide
+            (authPathOf H (Function.update g j d) n (lis.getD k 0) ≠ authPathOf H g n (lis.getD k 0)))) := by
+  unfold batchUpdateFromLeafMutation
+  obtain ⟨m', acc, hded, hinv⟩ :=
+    mutation_step H n g g [] [] false true j d hj hn (MapInv_nil H n g) (fun _ => rfl)
+  simp only [List.length_map, ne_eq, not_true_eq_false, if_false, l2n_eq_nodeIdx j (by omega), hded,
+    Option.bind_eq_bind, Option.bind_some]
+  rw [batchReplaceLoop_spec m' true (authPathOf H g n) (authPathOf H (Function.update g j d) n)
+    (fun li => (List.range (locate n li).1).map (fun t => nodeIdx t (sibBlk (li / 2 ^ t)))) lis 0]
+  · rw [chgIdx_eq]; simp
+  · intro li hli
+    have hl : (authPathOf H g n li).length = (locate n li).1 := by unfold authPathOf; rw [sibPath_length]
+    refine ⟨by rw [hl]; exact own_node_indices n li (hlis li hli) hn, ?_⟩
+    apply replace_path_spec H n g _ [j] m' true li (hlis li hli) hinv
+    intro _ t t' h1 h2
+    exact meet_unique li j t t' (slot_changed_meet H g li j t d h1) (slot_changed_meet H g li j t' d h2)
+
+/-! ### batches of mutations -/
+
+/-- the leaf list after a batch of assignments -/
+def applyMutsL (g : Nat → D) (ms : List (Nat × D)) : Nat → D := ms.foldl (fun g m => Function.update g m.1 m.2) g
+
+omit [DecidableEq D] in
+theorem applyMutsL_not_mem : ∀ (ms : List (Nat × D)) (g : Nat → D) (k : Nat), k ∉ ms.map (·.1) →
+    applyMutsL g ms k = g k := by
+  intro ms
+  induction ms with
+  | nil => intros; rfl
+  | cons x ms ih =>
+    intro g k hk
+    simp only [List.map_cons, List.mem_cons, not_or] at hk
+    show applyMutsL (Function.update g x.1 x.2) ms k = g k
+    rw [ih _ k hk.2, Function.update_of_ne hk.1]
+
+omit [DecidableEq D] in
+theorem applyMutsL_mem : ∀ (ms : List (Nat × D)) (g : Nat → D) (k : Nat) (d : D), (ms.map (·.1)).Nodup →
+    (k, d) ∈ ms → applyMutsL g ms k = d := by
+  intro ms
+  induction ms with
+  | nil => intro _ _ _ _ h; simp at h
+  | cons x ms ih =>
+    intro g k d hnd hm
+    simp only [List.map_cons, List.nodup_cons] at hnd
+    show applyMutsL (Function.update g x.1 x.2) ms k = d
+    rcases List.mem_cons.mp hm with he | hm'
+    · subst he
+      rw [applyMutsL_not_mem ms _ _ hnd.1]; simp
+    · exact ih _ k d hnd.2 hm'
+
+omit [DecidableEq D] in
+/-- distinct leafs: the order of the assignments does not matter -/
+theorem applyMutsL_reverse (ms : List (Nat × D)) (g : Nat → D) (hnd : (ms.map (·.1)).Nodup) :
+    applyMutsL g ms.reverse = applyMutsL g ms := by
+  funext k
+  by_cases hk : k ∈ ms.map (·.1)
+  · obtain ⟨x, hx, rfl⟩ := List.mem_map.mp hk
+    rw [applyMutsL_mem ms g x.1 x.2 hnd hx,
+      applyMutsL_mem ms.reverse g x.1 x.2 (by rw [List.map_reverse]; exact List.pairwise_reverse.mpr (hnd.imp Ne.symm))
+        (List.mem_reverse.mpr hx)]
+  · rw [applyMutsL_not_mem ms g k hk, applyMutsL_not_mem ms.reverse g k (by simpa using hk)]
+
+omit [DecidableEq D] in
+/-- the `while let Some(..) = leaf_mutations.pop()` loop of `batch_update_from_batch_leaf_mutation` -/
+theorem mutationsLoop_spec (n : Nat) (g : Nat → D) (hn : n < 2 ^ 63) : ∀ (rest : List (Nat × D)) (m : AMap D)
+    (g' : Nat → D) (S : List Nat), MapInv H n g g' S m → (∀ x ∈ rest, x.1 < n) → (rest.map (·.1)).Nodup →
+    (∀ x ∈ rest, x.1 ∉ S) →
+    ∃ m' S', mutationsLoop H false 0 (rest.map fun x => ⟨x.1, x.2, authPathOf H g n x.1⟩) m []
+        = some (m', []) ∧ MapInv H n g (applyMutsL g' rest) S' m' := by
+  intro rest
+  induction rest with
+  | nil => intro m g' S hinv _ _ _; exact ⟨m, S, rfl, hinv⟩
+  | cons x rest ih =>
+    intro m g' S hinv hlt hnd hS
+    have hx := hlt x (by simp)
+    simp only [List.map_cons, List.nodup_cons] at hnd
+    have hfresh : (AMap.get? m (nodeIdx 0 x.1)).isSome = false := by
+      cases hc : (AMap.get? m (nodeIdx 0 x.1)).isSome with
+      | false => rfl
+      | true => exact absurd (hinv.2.2 x.1 hc) (hS x (by simp))
+    obtain ⟨m1, acc, hded, hinv1⟩ := mutation_step H n g g' S m true false x.1 x.2 hx hn hinv (by simp)
+    obtain ⟨m', S', hloop, hinv'⟩ := ih m1 (Function.update g' x.1 x.2) (x.1 :: S) hinv1
+      (fun y hy => hlt y (by simp [hy])) hnd.2 (by
+        intro y hy
+        simp only [List.mem_cons, not_or]
+        refine ⟨?_, hS y (by simp [hy])⟩
+        intro he
+        exact hnd.1 (by rw [← he]; exact List.mem_map.mpr ⟨y, hy, rfl⟩))
+    refine ⟨m', S', ?_, hinv'⟩
+    rw [List.map_cons, mutationsLoop]
+    simp only [l2n_eq_nodeIdx x.1 (by omega), hfresh, Bool.false_eq_true, if_false, Bool.not_false, hded,
+      Option.bind_eq_bind, Option.bind_some]
+    exact hloop
+
+/-- **`batch_update_from_batch_leaf_mutation`** on from-scratch paths, distinct mutated leafs in any order -/
+theorem batchUpdateFromBatchLeafMutation_spec (g : Nat → D) (n : Nat) (ms : List (Nat × D)) (lis : List Nat)
+    (hlis : ∀ i ∈ lis, i < n) (hms : ∀ m ∈ ms, m.1 < n) (hnd : (ms.map (·.1)).Nodup) (hn : n < 2 ^ 63) :
+    batchUpdateFromBatchLeafMutation H (lis.map (authPathOf H g n)) lis
+        (ms.map fun m => ⟨m.1, m.2, authPathOf H g n m.1⟩)
+      = some (lis.map (authPathOf H (applyMutsL g ms) n),
+          (List.range lis.length).filter (fun k => decide
+            (authPathOf H (applyMutsL g ms) n (lis.getD k 0) ≠ authPathOf H g n (lis.getD k 0)))) := by
+  unfold batchUpdateFromBatchLeafMutation
+  obtain ⟨m', S', hloop, hinv⟩ := mutationsLoop_spec H n g hn ms.reverse [] g [] (MapInv_nil H n g)
+    (fun x hx => hms x (List.mem_reverse.mp hx))
+    (by rw [List.map_reverse]; exact List.pairwise_reverse.mpr (hnd.imp Ne.symm)) (fun _ _ => by simp)
+  rw [applyMutsL_reverse ms g hnd] at hinv
+  simp only [List.length_map, ne_eq, not_true_eq_false, if_false, ← List.map_reverse, hloop,
+    Option.bind_eq_bind, Option.bind_some]
+  rw [batchReplaceLoop_spec m' false (authPathOf H g n) (authPathOf H (applyMutsL g ms) n)
+    (fun li => (List.range (locate n li).1).map (fun t => nodeIdx t (sibBlk (li / 2 ^ t)))) lis 0]
+  · rw [chgIdx_eq]; simp
+  · intro li hli
+    have hl : (authPathOf H g n li).length = (locate n li).1 := by unfold authPathOf; rw [sibPath_length]
+    refine ⟨by rw [hl]; exact own_node_indices n li (hlis li hli) hn, ?_⟩
+    exact replace_path_spec H n g _ S' m' false li (hlis li hli) hinv (by simp)
+
+end Batch3
+
 end TF.MmrE
